@@ -21,11 +21,17 @@ func GoType(t Term) string {
 	case KErr:
 		return "Error"
 	case KSym, KOpt:
+		if t.Name == "ERROR" {
+			return "Error"
+		}
 		if t.IsTok {
 			return "Token"
 		}
 		return "*nodeT"
 	default:
+		if t.Name == "ERROR" {
+			return "[]Error"
+		}
 		if t.IsTok {
 			return "[]Token"
 		}
@@ -111,6 +117,10 @@ func frontier(v any, out *[]int) {
 		for _, k := range v {
 			frontier(k, out)
 		}
+	case []Error:
+		for _, k := range v {
+			frontier(k, out)
+		}
 	}
 }
 
@@ -158,6 +168,15 @@ func show(v any) string {
 		}
 		return s + "]"
 	case []*nodeT:
+		s := "["
+		for i, k := range v {
+			if i > 0 {
+				s += " "
+			}
+			s += show(k)
+		}
+		return s + "]"
+	case []Error:
 		s := "["
 		for i, k := range v {
 			if i > 0 {
@@ -247,6 +266,10 @@ func (p *prs) _onBounds(r any, begin, end Token) {
 			for i, t := range p.Terms {
 				if t.Kind == KErr {
 					fmt.Fprintf(&b, "\tp.errs++\n\tif p.firstErr == -2 {\n\t\tp.firstErr = a%d.Token.Idx\n\t}\n", i)
+				} else if t.Name == "ERROR" && t.Kind == KOpt {
+					fmt.Fprintf(&b, "\tif a%d.Token != (Token{}) || a%d.Expected != nil {\n\t\tp.errs++\n\t\tif p.firstErr == -2 {\n\t\t\tp.firstErr = a%d.Token.Idx\n\t\t}\n\t}\n", i, i, i)
+				} else if t.Name == "ERROR" {
+					fmt.Fprintf(&b, "\tfor _, e := range a%d {\n\t\tp.errs++\n\t\tif p.firstErr == -2 {\n\t\t\tp.firstErr = e.Token.Idx\n\t\t}\n\t}\n", i)
 				}
 			}
 			fmt.Fprintf(&b, "\tp.seq++\n\tn := &nodeT{Rule: %q, ID: p.seq, Kids: []any{%s}}\n", r.Name, strings.Join(kids, ", "))
